@@ -375,6 +375,37 @@ impl ReceiveChannelReliable {
     }
 }
 
+#[cfg(feature = "verif")]
+impl SendChannelReliable {
+    /// (message id, per-slice acked flags; a small message has one flag, always false)
+    pub(crate) fn verif_unacked(&self) -> Vec<(u64, Vec<bool>)> {
+        self.unacked_messages
+            .iter()
+            .map(|(id, m)| match m {
+                UnackedMessage::Small { .. } => (*id, vec![false]),
+                UnackedMessage::Sliced { acked, .. } => (*id, acked.clone()),
+            })
+            .collect()
+    }
+
+    pub(crate) fn verif_set_next_message_id(&mut self, id: u64) {
+        assert!(self.unacked_messages.is_empty(), "verif counter teleport is only for fresh channels");
+        self.next_reliable_message_id = id;
+    }
+}
+
+#[cfg(feature = "verif")]
+impl ReceiveChannelReliable {
+    pub(crate) fn verif_memory(&self) -> (usize, usize) {
+        (self.memory_usage_bytes, self.max_memory_usage_bytes)
+    }
+
+    pub(crate) fn verif_set_next_message_id(&mut self, id: u64) {
+        assert!(self.messages.is_empty() && self.slices.is_empty(), "verif counter teleport is only for fresh channels");
+        self.oldest_pending_message_id = id;
+    }
+}
+
 #[cfg(test)]
 mod tests {
     use octets::OctetsMut;
